@@ -41,14 +41,24 @@ pub fn main(args: &[String]) -> i32 {
             let co = Flat::parse(text)?;
             let de = Deep::parse(text)?;
             let dd: Value = serde_json::from_str(&de.verif_dump()).unwrap_or(json!({}));
-            Ok(json!({"flat_wo": flat_shape(&wo.verif_dump()), "flat": flat_shape(&co.verif_dump()), "deep": deep_shape(&dd)}))
+            // printed text of the deep form; `@<n>` (Debug of a folded term / constant) is normalised to `@`
+            let mut up = String::new();
+            let mut skip = false;
+            for c in de.unparse().chars() {
+                if skip && c.is_ascii_digit() {
+                    continue;
+                }
+                skip = c == '@';
+                up.push(c);
+            }
+            Ok(json!({"flat_wo": flat_shape(&wo.verif_dump()), "flat": flat_shape(&co.verif_dump()), "deep": deep_shape(&dd), "up": crate::term::cps(&up)}))
         });
         let obs = match obs {
             Ok(Ok(v)) => v,
-            _ => json!({"flat_wo": "failed", "flat": "failed", "deep": "failed"}),
+            _ => json!({"flat_wo": "failed", "flat": "failed", "deep": "failed", "up": "failed"}),
         };
         let mut diff = vec![];
-        for k in ["flat_wo", "flat", "deep"] {
+        for k in ["flat_wo", "flat", "deep", "up"] {
             if rec.get(k) != obs.get(k) {
                 diff.push(k);
             }
@@ -58,7 +68,7 @@ pub fn main(args: &[String]) -> i32 {
         } else {
             fwd += 1;
             if fwd <= 50 {
-                let _ = writeln!(out, "{}", json!({"text": uncps(tv), "differs": diff, "model": {"flat_wo": rec.get("flat_wo"), "flat": rec.get("flat"), "deep": rec.get("deep")}, "code": obs}));
+                let _ = writeln!(out, "{}", json!({"text": uncps(tv), "differs": diff, "model": {"flat_wo": rec.get("flat_wo"), "flat": rec.get("flat"), "deep": rec.get("deep"), "up": rec.get("up")}, "code": obs}));
             }
         }
     });
